@@ -1050,6 +1050,17 @@ def bloch_messiah(S, tol=1e-10, rounding=9):
 
         pmat1 = block_diag(*(u_list + v_list))
 
+        # The subspace of unit singular values (unsqueezed modes) is special: its eigenvectors are
+        # not split into an s and a 1/s half, so the block x used above is in general not orthogonal
+        # (it can even vanish). Instead, build a symplectic orthonormal basis of the whole subspace
+        # from the eigenvectors z = (e - i f)/sqrt(2) of i times the restricted symplectic form.
+        for start_i, stop_i, vals in zip(start_is, stop_is, result):
+            if vals[0] == 1:
+                idx = list(range(start_i, stop_i)) + list(range(n + start_i, n + stop_i))
+                eigvals, z = np.linalg.eigh(1j * qomega[np.ix_(idx, idx)].real)
+                z = z[:, eigvals > 0]
+                pmat1[np.ix_(idx, idx)] = np.sqrt(2) * np.hstack([z.real, -z.imag])
+
         st1 = pmat1.T @ pmat @ np.diag(ss) @ pmat @ pmat1
         ut1 = uss @ pmat @ pmat1
         v1 = np.transpose(ut1) @ u
